@@ -217,6 +217,19 @@ def shapes(tier, seed):
                     out.append(dict(TWO, kind="conn", tree=[op, s1, s2]))
         out.append(dict(TWO, kind="conn", tree=[op, two_subs[0], ["plain", SY[0]]]))
         out.append(dict(TWO, kind="conn", tree=[op, ["plain", SX[0]], two_subs[1]]))
+    # partial selection: a variable constrained inside a sub-query but selected nowhere
+    for sel in ([["v", "x"]], [["v", "y"]]):
+        P = dict(TWO, select=sel, kind="conn")
+        sx = lambda c: ["sub", "entity", ["x"], c]
+        for (a_, b_, c_) in [(J[3], SX[0], J[4]), (J[0], SX[1], J[3]), (J[4], SY[0], J[0]), (J[3], SY[1], J[5]),
+                             (["and", J[5], SX[1]], SX[0], J[3]), (["and", J[3], SX[0]], SX[1], J[5]),
+                             (["and", SX[0], J[5]], SY[0], J[4]), (["or", J[5], SX[1]], SX[0], J[3])]:
+            out.append(dict(P, tree=["|", ["&", sx(a_), ["plain", b_]], ["plain", c_]]))
+            out.append(dict(P, tree=["|", ["&", ["plain", b_], sx(a_)], ["plain", c_]]))
+            out.append(dict(P, tree=["&", ["|", sx(a_), ["plain", b_]], ["plain", c_]]))
+            out.append(dict(P, tree=["|", ["plain", c_], ["&", sx(a_), ["plain", b_]]]))
+            out.append(dict(P, tree=["&", sx(a_), ["plain", c_]]))
+            out.append(dict(P, tree=["|", sx(a_), ["plain", c_]]))
     # operand position
     for quant in ("an", "the"):
         for c in core[:4] + [["and", core[0], core[1]]]:
